@@ -137,6 +137,18 @@ if __name__ == "__main__":
     rng = random.Random(common.seed())
     progs = [gen(rng, i) for i in range(700 if t == "quick" else 10000)]
     progs += [dict(p, args=[a for a in p["args"] if a.startswith("-f")]) for p in population.corpus()]
+    # ambiguities that go through an Else transition (inverted sets, the wildcard): a byte that both continues a statement
+    # found by look-ahead and starts what comes next only because an inverted set or '.' admits it
+    k = 0
+    for inv in ("[^z]", ".", "[^0-9]", "\\D"):
+        for src in ('parser {\n  loop {\n    "q";\n    optional { /' + inv + 'b/; }\n  }\n}\n',
+                    'parser {\n  loop {\n    /q+/;\n    optional { /' + inv + '/; ";"; }\n  }\n}\n',
+                    'out int c = 0;\nparser {\n  case { "0" -> { c = 0; } "1" -> { c = 1; } }\n  /x(ay)?/;\n  if c == 0 { /' + inv + 'p/; } else { /[^b]q/; }\n}\n',
+                    'out int c = 0;\nparser {\n  /x(ay)?/;\n  if c == 0 { /[^a]p/; } else { /' + inv + 'q/; }\n}\n',
+                    'parser {\n  /a+/;\n  /' + inv + 'z/;\n}\n',
+                    'parser {\n  loop { case { /ab*/ -> {} /' + inv + '/ -> { break; } } }\n}\n'):
+            progs.append({"name": f"else-amb-{k}", "src": src, "args": ["-feof-support"], "feats": {}})
+            k += 1
     with mp.Pool(min(14, os.cpu_count() or 4)) as pool:
         results = pool.map(work, progs, chunksize=4)
     byname = {p["name"]: p for p in progs}
